@@ -19,7 +19,8 @@ RULE = ('expression cases: round-robin over nesting depth 0-4 (exactly reached b
         '5 seeded random working-unit configurations. A case is non-trivial when its expression contains an operator '
         'and differs textually from its partner; distinct = distinct fingerprint of (both expression strings, '
         'values). Named working units: ALL 29 admissible subsets x 3 name variants every run (exhaustive), plus '
-        'seeded random name draws in the thorough tier. LAMMPS styles: all 8 styles x 3 (6) rescaling triples.')
+        'seeded random name draws in the thorough tier. LAMMPS styles: all 8 styles x 3 (6) rescaling quadruples, '
+        'every tabulated quantity (13 mechanical; temperature, charge, dipole, electric field in addition).')
 ASSUMPTIONS = [
     'negative numeric literals occur only as exponents; bases (unit values, literals) are positive',
     'chained ^ occurs only with parentheses around the inner power',
@@ -42,11 +43,14 @@ T_TABLE = 'every known unit name has its SI definition scaled by the base-unit f
 E_DIM = 'mechanical LAMMPS style entry has the dimension of its quantity (log-ratio under rescaled units)'
 E_SEED = 'mechanical LAMMPS style entry scales with random base units as its quantity does'
 E_ORACLE = 'mechanical LAMMPS style entry has the dimension of its quantity (dimension algebra over the unit table)'
+X_DIM = 'thermal/electrical LAMMPS style entry has the dimension of its quantity (log-ratio under rescaled units)'
+X_SEED = 'thermal/electrical LAMMPS style entry scales with random base units as its quantity does'
+X_ORACLE = 'thermal/electrical LAMMPS style entry has the dimension of its quantity (dimension algebra over the unit table)'
 E_LJ = "every entry of the 'lj' style table is None"
 E_PRESENT = 'non-lj style tables list every mechanical quantity as a unit expression'
 
-SCALE_SETS = [('cm', 'g', 'ms'), ('nm', 'amu', 'fs'), ('inch', 'lbm', 'hour'),
-              ('km', 'tonne', 'minute'), ('aBohr', 'me', 'ps'), ('um', 'pg', 'us')]
+SCALE_SETS = [('cm', 'g', 'ms', 'mC'), ('nm', 'amu', 'fs', 'e'), ('inch', 'lbm', 'hour', 'Ah'),
+              ('km', 'tonne', 'minute', 'uC'), ('aBohr', 'me', 'ps', 'mAh'), ('um', 'pg', 'us', 'nC')]
 
 
 def apply_config(uc, cfg, rng=None):
@@ -399,7 +403,9 @@ def run_configs(ctx, uc):
 
 
 def run_styles(ctx, uc, style_mod):
-    """Clause (e)."""
+    """Clause (e): every tabulated quantity of every style has the dimension it labels.  Three independent
+    routes per entry: the oracle's dimension algebra over its own unit table; log-ratios of the entry's real
+    value under one rescaled configuration per base unit; scaling under two seeded random configurations."""
     rec = ctx.rec
     nsets = ctx.pick(3, 6)
     n = len(U.STYLES) * nsets
@@ -418,8 +424,8 @@ def run_styles(ctx, uc, style_mod):
         if style == 'lj':
             notnone = {k: v for k, v in tab.items() if v is not None}
             rec.check(not notnone, E_LJ, 'style:lj:not-none', entries=notnone)
-            rec.check(all(q in tab for q in U.STYLE_DIMS), "the 'lj' table lists every mechanical quantity", 'style:lj:missing',
-                      missing=[q for q in U.STYLE_DIMS if q not in tab])
+            miss = [q for q in U.STYLE_REQUIRED if q not in tab]
+            rec.check(not miss, "the 'lj' table lists every mechanical quantity", 'style:lj:missing', missing=miss)
             rec.count('style:lj-entries-checked', len(tab))
             continue
         entries = {}
@@ -434,17 +440,26 @@ def run_styles(ctx, uc, style_mod):
             rec.check(isinstance(ent, str), E_PRESENT, f'style:{style}:{qn}:absent', entry=ent)
             if isinstance(ent, str):
                 entries[qn] = ent
-        # oracle's own dimension algebra over the hand-entered table
+        unknown = [q for q in tab if q not in U.STYLE_DIMS]
+        rec.count('style:entries-of-unknown-quantity', len(unknown))
+        mech = {qn: qn in U.STYLE_MECHANICAL for qn in entries}
+
+        def clause(qn, m, e):
+            return m if mech[qn] else e
+
+        # route 1: the oracle's own dimension algebra over the hand-entered table
         for qn, ent in entries.items():
+            key = f'style:{style}:{qn}:dimension'
             try:
                 d = U.evaluate_si(ent).d
             except (KeyError, U.GrammarError) as e:
-                rec.fail(E_ORACLE, f'style:{style}:{qn}:oracle', entry=ent, error=e)
+                rec.fail(clause(qn, E_ORACLE, X_ORACLE), key, entry=ent, error=e)
                 continue
-            rec.check(all(abs(a - b) < 1e-12 for a, b in zip(d, U.STYLE_DIMS[qn] + (0, 0))), E_ORACLE,
-                      f'style:{style}:{qn}:oracle', entry=ent, dim=d, expected=U.STYLE_DIMS[qn])
-        # log-ratios: SI baseline, then one rescaled configuration per base unit, then two random configurations
+            rec.check(all(abs(a - b) < 1e-12 for a, b in zip(d, U.STYLE_DIMS[qn])), clause(qn, E_ORACLE, X_ORACLE),
+                      key, entry=ent, dimension_LMTQK=d, expected_LMTQK=U.STYLE_DIMS[qn])
+        # routes 2, 3: SI baseline, one rescaled configuration per base unit (m, kg, s, C), two random configurations
         cfgs = [('SI', None), ('named', {'length': sset[0]}), ('named', {'mass': sset[1]}), ('named', {'time': sset[2]}),
+                ('named', {'charge': sset[3]}),
                 ('seed', int(rng.integers(0, 10 ** 6))), ('seed', int(rng.integers(0, 10 ** 6)))]
         vals, bases = [], []
         try:
@@ -456,27 +471,30 @@ def run_styles(ctx, uc, style_mod):
                     with ctx.guard('style entries are expressions of the unit grammar', f'style:{style}:{qn}:parse'):
                         row[qn] = float(uc.parse(ent))
                 vals.append(row)
-        except Exception as e:          # reset_units itself failed: judged by the named/configs groups
+        except Exception:               # reset_units itself failed: judged by the named/configs groups
             rec.count('style:configuration-failed')
             continue
         finally:
             restore_default(uc)
-        factors = (bases[1][0], bases[2][1], bases[3][2])
-        ok_scaling = (all(abs(math.log10(f)) > 0.1 for f in factors) and bases[0] == (1.0,) * 5
-                      and bases[1][1:] == (1.0,) * 4 and bases[2][0] == 1.0 and bases[2][2:] == (1.0,) * 3
-                      and bases[3][:2] == (1.0, 1.0) and bases[3][3:] == (1.0, 1.0))
+        factors = tuple(bases[k + 1][k] for k in range(4))
+        ok_scaling = bases[0] == (1.0,) * 5 and all(abs(math.log10(f)) > 0.1 for f in factors) and all(
+            bases[k + 1][j] == 1.0 for k in range(4) for j in range(5) if j != k)
         if not ok_scaling:
             rec.count('style:rescaling-not-as-requested')        # reset_units is broken: clause (d) reports it
         for qn, ent in entries.items():
             if any(qn not in r for r in vals):
                 continue
+            key = f'style:{style}:{qn}:dimension'
             if ok_scaling:
-                p = U.log_ratio_exponents(vals[0][qn], [vals[1][qn], vals[2][qn], vals[3][qn]], factors)
-                rec.close(1e-9, p, U.STYLE_DIMS[qn], E_DIM, f'style:{style}:{qn}', entry=ent, scaled_by=sset)
-                rec.count('style:mechanical-entries-by-log-ratio')
-            for k in (4, 5):
-                pred = float(vals[0][qn] * U.scale_of(bases[k], U.STYLE_DIMS[qn] + (0, 0)))
-                rec.close(0.0, vals[k][qn], pred, E_SEED, f'style:{style}:{qn}:seed', rtol=1e-12, entry=ent, base=bases[k])
+                p = U.log_ratio_exponents(vals[0][qn], [vals[k][qn] for k in (1, 2, 3, 4)], factors)
+                rec.close(1e-9, p, U.STYLE_DIMS[qn][:4], clause(qn, E_DIM, X_DIM), key, entry=ent, scaled_by=sset,
+                          exponents_LMTQ=p)
+                rec.count('style:mechanical-entries-by-log-ratio' if mech[qn] else 'style:other-entries-by-log-ratio')
+            for k in (5, 6):
+                pred = float(vals[0][qn] * U.scale_of(bases[k], U.STYLE_DIMS[qn]))
+                rec.close(0.0, vals[k][qn], pred, clause(qn, E_SEED, X_SEED), key, rtol=1e-12, entry=ent, base=bases[k])
+            if qn == 'volume':
+                rec.count('style:volume-entries-checked')
 
 
 def reach(rec, uc_mod, style_mod):
@@ -554,6 +572,9 @@ def run(ctx):
     for v in G.VALUE_CLASSES:
         rec.floor('value:' + v, 100)
     rec.floor('style:mechanical-entries-by-log-ratio', 200)
+    rec.floor('style:other-entries-by-log-ratio', 60)
+    for cl, m in ((X_DIM, 60), (X_SEED, 120), (X_ORACLE, 60)):
+        rec.floor('clause:' + cl, m)
     rec.floor('style:lj-entries-checked', 16)
     rec.floor('reach:reset_units:energy-fixes-mass', 1)
     rec.floor('reach:reset_units:energy-fixes-time', 1)
